@@ -3,6 +3,7 @@ import math
 import random
 
 PERIODS = [0.5, 1, 5, 7.5, 15, 60, 7, 13, 2.5, 45]
+TIER = "quick"  # set by the runner before a property's cases() is called; the thorough tier also explores larger scenarios
 VOLTAGES = [120, 208, 240, 277]
 PHASES3 = [30, -90, 150]
 
@@ -182,7 +183,7 @@ def rand_battery(rng, request, kinds=("ideal", "l2c", "l2s"), noise_p=0.0, big=F
 
 # ----------------------------------------------------------------- sessions
 def rand_sessions(rng, net, nmax=7, horizon=30, bkinds=("ideal", "l2c", "l2s"), noise_p=0.0,
-                  big=False, sid_style="x", back_to_back_p=0.4, simultaneous_p=0.3):
+                  big=False, sid_style="x", back_to_back_p=0.4, simultaneous_p=0.3, stay_scale=1):
     ids = [s["id"] for s in net["stations"]]
     busy = {i: 0 for i in ids}
     out = []
@@ -196,7 +197,7 @@ def rand_sessions(rng, net, nmax=7, horizon=30, bkinds=("ideal", "l2c", "l2s"), 
             a = busy[st]
         else:
             a = busy[st] + rng.choice([0, 1, 2, 3, 5])
-        d = a + rng.choice([1, 1, 2, 3, 4, 6, 9])
+        d = a + rng.choice([1, 1, 2, 3, 4, 6, 9]) * (rng.choice([1, stay_scale]) if stay_scale != 1 else 1)
         if a >= horizon:
             continue
         busy[st] = d
@@ -397,7 +398,15 @@ def typed_schedule(plain, rng, np=None):
 # ---------------------------------------------------------------- scenarios
 def scenario(rng, sched="scripted", nmax=6, sess_max=7, horizon=25, kinds=("EVSE", "DB", "FR"),
              bkinds=("ideal", "l2c", "l2s"), noise_p=0.0, constraint_free_p=0.2, big=False,
-             sid_style="x", recompute_p=0.4, bind=None, period=None, inf_evse_p=0.06, **skw):
+             sid_style="x", recompute_p=0.4, bind=None, period=None, inf_evse_p=0.06, deep=None, **skw):
+    if deep is None:
+        deep = TIER == "thorough" and rng.random() < 0.15
+    if deep:
+        # deeper, not only more: up to three times the stations, four times the sessions, and (where the caller did not fix
+        # the horizon) runs of up to 150 periods
+        nmax, sess_max = min(24, nmax * 3), sess_max * 4
+        if horizon == 25:
+            horizon = rng.choice([60, 150])
     net = rand_network(rng, nmax=nmax, kinds=kinds, constraint_free_p=constraint_free_p, bind=bind)
     if sched in ("scripted", "uncontrolled") and rng.random() < inf_evse_p:
         # stations built as the library's default EVSE (no upper end: max_rate = inf); the uncontrolled baseline then sends an
@@ -406,7 +415,7 @@ def scenario(rng, sched="scripted", nmax=6, sess_max=7, horizon=25, kinds=("EVSE
             if s_["evse"]["t"] == "EVSE" and rng.random() < 0.7:
                 s_["evse"] = dict(s_["evse"], max=float("inf"))
     sessions = rand_sessions(rng, net, nmax=sess_max, horizon=horizon, bkinds=bkinds, noise_p=noise_p,
-                             big=big, sid_style=sid_style)
+                             big=big, sid_style=sid_style, stay_scale=(horizon // 20 if deep and horizon > 25 else 1))
     if not sessions:
         st = net["stations"][0]["id"]
         sessions = [{"id": "x0", "station": st, "arrival": 0, "departure": 2, "requested": 1.0, "est_dep": 2,
